@@ -211,6 +211,7 @@ class Stmt:
         self.offset = None
         self.conflict_cols = None
         self.conflict_any = False
+        self.values = []
         self.update_set = []  # columns assigned in DO UPDATE SET / UPDATE SET
         self.set_literals = {}  # column -> literal in SET col = 'lit'
         self.select_cols = []
@@ -236,6 +237,14 @@ class Stmt:
             if m:
                 self.table = m.group(1)
                 self.columns = [c.strip() for c in m.group(2).split(",")]
+            mv = re.search(r"\bVALUES\s*\(", self.text, re.I)
+            self.values = []
+            if mv:
+                depth, i0, i = 1, mv.end(), mv.end()
+                while i < len(self.text) and depth:
+                    depth += {"(": 1, ")": -1}.get(self.text[i], 0)
+                    i += 1
+                self.values = [v.strip() for v in split_top(self.text[i0:i - 1])]
             mc = re.search(r"ON\s+CONFLICT\s*(?:\(([^)]*)\))?\s*DO\s+(UPDATE\s+SET\s+(.*)|NOTHING)", self.text, re.I | re.S)
             if mc:
                 # `ON CONFLICT DO UPDATE` without a target applies to a conflict on *any* unique index: recorded as an empty target
